@@ -16,6 +16,7 @@ type VStruct struct {
 	ruleMap   map[reflect.Type]RM // 验证规则, key: 为结构体 reflect.Type, value: 为该结构体的规则
 	errBuf    *strings.Builder
 	vc        *validCommon
+	nested    bool // 当前字段的嵌套内容是否已验证过(required,exist 同时存在时只验证一次)
 }
 
 // structType 结构体类型
@@ -191,6 +192,7 @@ func (v *VStruct) validate(structName string, value reflect.Value, isValidGather
 		}
 
 		fieldValue := tv.Field(fieldInfo.offset)
+		v.nested = false
 		// 根据 tag 中的验证内容进行验证
 		for _, validName := range ValidNamesSplit(fieldInfo.validNames) {
 			if validName == "" {
@@ -297,6 +299,13 @@ func (v *VStruct) exist(isValidTvKind bool, structName, fieldName, cusMsg string
 	if kind == reflect.Ptr && RemoveTypePtr(tv.Type()).Kind() != reflect.Struct {
 		kind = reflect.Invalid // 指向非结构体的指针(如: *int)没有嵌套内容, 按普通值处理
 	}
+	if v.nested { // 同一字段的 required/exist 已经验证过嵌套内容, 不再重复验证
+		switch kind {
+		case reflect.Ptr, reflect.Struct, reflect.Slice, reflect.Array, reflect.Map:
+			return
+		}
+	}
+	defer func() { v.nested = true }() // 嵌套验证会改写此标记, 返回到当前字段时重新置位
 	switch kind {
 	case reflect.Ptr, reflect.Struct:
 		if tv.Type() == timeReflectType {
